@@ -57,7 +57,7 @@ func outputProjects(c *core.Ctx, n int) []*gen.Project {
 		if leapEnd {
 			L := p.Cfg.StartYear + o.Years
 			if y, _, _ := gen.YMD(p.Cfg.End); y == L {
-				cand := []int{gen.DayNum(L, 9, 30) - r.Intn(60), gen.DayNum(L, 3, 1) + r.Intn(31), gen.DayNum(L, 2, 27) + r.Intn(3), gen.DayNum(L, 12, 28) + r.Intn(4)}[(i/4)%4]
+				cand := []int{gen.DayNum(L, 9, 30) - r.Intn(60), gen.DayNum(L, 12, 31), gen.DayNum(L, 3, 1) + r.Intn(31), gen.DayNum(L, 2, 27) + r.Intn(3), gen.DayNum(L, 12, 28) + r.Intn(4)}[(i/4)%5]
 				if cand >= p.Rotation[0].Harv+120 {
 					p.Cfg.End = cand
 					for len(p.Rotation) > 1 && p.Rotation[len(p.Rotation)-1].Harv > p.Cfg.End-3 {
@@ -78,11 +78,11 @@ func outputProjects(c *core.Ctx, n int) []*gen.Project {
 			md := [][2]int{{12, 31}, {12, 30}, {1, 1}, {2, 28}, {3, 1}, {12, 31}}[r.Intn(6)]
 			p.Cfg.AnnualM, p.Cfg.AnnualD = md[0], md[1]
 		}
-		if leapEnd && (i/4)%4 == 0 {
-			p.Cfg.AnnualM, p.Cfg.AnnualD = 12, 31 // last day of a leap end year, the run ends before it
+		if leapEnd && (i/4)%5 <= 1 {
+			p.Cfg.AnnualM, p.Cfg.AnnualD = 12, 31 // last day of a leap end year: the run ends before it / exactly on it
 		}
 		// end anywhere, incl. the last days of a year
-		if i%3 == 0 {
+		if i%3 == 0 && !(leapEnd && (i/4)%5 <= 1) {
 			y, _, _ := gen.YMD(p.Cfg.End)
 			p.Cfg.End = gen.DayNum(y, 12, 31) - r.Intn(3)
 			if len(p.Rotation) > 1 && p.Rotation[len(p.Rotation)-1].Harv > p.Cfg.End-3 {
@@ -94,15 +94,27 @@ func outputProjects(c *core.Ctx, n int) []*gen.Project {
 		for _, k := range r.Perm(len(dailyPool))[:3+r.Intn(8)] {
 			cols = append(cols, dailyPool[k])
 		}
+		// data columns aligned left / right / center / none (both output styles accept all four)
+		aligns := []string{"right", "left", "center", "none", "right"}
+		for k := range cols {
+			cols[k].Align = aligns[(i+k)%5]
+		}
 		p.Daily = cols
 		ycols := []gen.OutCol{{Var: "AKTUELL", Format: "%s", Width: 10}}
 		for _, k := range r.Perm(len(dailyPool))[:2+r.Intn(5)] {
 			ycols = append(ycols, dailyPool[k])
 		}
+		for k := range ycols {
+			ycols[k].Align = aligns[(i+2*k+1)%5]
+		}
 		p.Yearly = ycols
 		ccols := p.CropColumns()
 		if r.Intn(2) == 0 {
 			ccols = append(ccols, gen.OutCol{Var: "BBCH_DOY", Idx1: 10 + r.Intn(80), Format: "%d", Width: 4}, gen.OutCol{Var: "NOSUCH", Format: "%s", Width: 5}, gen.OutCol{Var: "LAImax", Format: "%.2f", Width: 6})
+		}
+		ccols = append([]gen.OutCol{}, ccols...)
+		for k := range ccols {
+			ccols[k].Align = aligns[(i+k+3)%5]
 		}
 		p.CropOut = ccols
 		ey, em, ed := gen.YMD(p.Cfg.End)
